@@ -147,6 +147,21 @@ func (w *World) ShareInMsg(sender int, id, kind string, msgIds []string) *shcryp
 	return w.Share(sender, id, kind)
 }
 
+// KeyBytes concretises a key token of a DecryptionKeys message: "correct" = the dealer's epoch secret
+// key of the identity (byte-identical to what interpolation of any T valid shares gives), anything
+// else ("forged") = the epoch secret key of the same identity under the OTHER eon key: a well-formed
+// G1 point that fails VerifyEpochSecretKey; one fixed object per identity.
+func (w *World) KeyBytes(id, kind string) []byte {
+	if kind == "correct" {
+		return w.trueKeys[id].Marshal()
+	}
+	k, err := w.Other.EpochSecretKey(w.Identity(id))
+	if err != nil {
+		panic(err)
+	}
+	return k.Marshal()
+}
+
 // PureResult is the DKG result keyper k would hold.
 func (w *World) PureResult(k int) *puredkg.Result {
 	var pks []*shcrypto.EonPublicKeyShare
